@@ -28,6 +28,7 @@ func c18(r *core.Report) {
 	c18CycleRec(r)
 	c18StringOption(r)
 	c18Embedded(r)
+	c18OptionVerbatim(r)
 }
 
 // c18Embedded: two loops that must see every element.
